@@ -1089,7 +1089,7 @@ pub const SITES: &[(&str, &str, &str, &str)] = &[
   ("identity_did/src/did_url.rs", "&relative[..index]", "yes", "strings: DIDUrl::parse/join"),
   ("identity_did/src/did_url.rs", "&segment[i..]", "yes: percent-escape validation of path/query/fragment", "strings: DIDUrl::parse/join/set_path/set_query/set_fragment"),
   // ---- identity_jose
-  ("identity_jose/src/jwk/jwk_ext.rs", "_ => unreachable!()", "yes: TryFrom<jsonprooftoken::Jwk> for Jwk with OKP-shaped parameters (the impl is compiled unconditionally; its in-tree callers live behind `jpt-bbs-plus`, which is off)", "census: Jwk::try_from(jsonprooftoken::Jwk) (JSON key-family product, member product, tree mutations, constructors)"),
+  ("identity_jose/src/jwk/jwk_ext.rs", "_ => return Err(Self::Error::InvalidParam(\"Parameters not supported!\"))", "yes (was `_ => unreachable!()` until the fix recorded in known_findings.json): TryFrom<jsonprooftoken::Jwk> for Jwk with OKP-shaped parameters (the impl is compiled unconditionally; its in-tree callers live behind `jpt-bbs-plus`, which is off)", "census: Jwk::try_from(jsonprooftoken::Jwk) (JSON key-family product, member product, tree mutations, constructors)"),
   // ---- identity_document
   ("identity_document/src/document/core_document.rs", "expect(\"unwrapping infallible should be fine\")", "yes: map_unchecked on unpacked documents", "binary: StateMetadataDocument::unpack > into_iota_document; json: StateMetadataDocument::from_json"),
   // ---- identity_credential
